@@ -2,7 +2,7 @@
 C13 — DSD cylindrical expansion (two concentric explosives, D_n = D_CJ - α κ, κ = 1/r).
 
 The traced burn time (`CylindricalExpansion.__init__` + `_run`) depends on the point only
-through r = ‖q‖ and is the documented solution `EPV.Spec.Burn.dsd` (`dsdcyl_eq_spec`).  On the
+through r = ‖q‖ and is the documented solution `EPV.Spec.Burn.dsd` (`EPV.Burn.dsdcyl_eq_spec`).  On the
 documented admissible domain  r₂ > r₁ > α₁/D_CJ₁,  r₂ > α₂/D_CJ₂,  D_CJ_i > 0,  α_i ≥ 0
 (`DSDCyl.Adm`; the constructor does NOT enforce the two curvature conditions — see
 `EPV/Props/C20/FindingBurn.lean`):
@@ -14,11 +14,12 @@ documented admissible domain  r₂ > r₁ > α₁/D_CJ₁,  r₂ > α₂/D_CJ₂
 * continuity everywhere: at the detonator circle r₁, across the interface r₂ (`dsdcyl_continuous`,
   `dsdcyl_interface`)
 * t = t_d on and inside the detonator circle, t ≥ t_d everywhere (`dsdcyl_at_detonator`, `dsdcyl_ge`)
-* strictly increasing in r from r₁ outwards    (`dsdcyl_strictMono`).
+* strictly increasing in r from r₁ outwards    (`dsdcyl_strictMono`)
+* two points of one explosive at radii ≥ ρ differ by at most dist/(D_CJ - α/ρ)  (`dsdcyl_lipschitz_inner/_outer`).
 -/
 import EPV.Gen.DSDCylD
 import EPV.Spec.Burn
-import EPV.Lemmas.BurnModels
+import EPV.Lemmas.BurnDSD
 import EPV.Tactics
 
 set_option linter.all false
@@ -134,7 +135,9 @@ theorem dsdcyl_gradient_inner (p : DSDCyl.P) (h : DSDCyl.Adm p) (x y : ℝ)
     filter_upwards [(cont_radius_y x y).eventually (Ioo_mem_nhds h1 h2)] with y' hy'
     exact dsdcyl_eq_L8 p h x y' hy'.1.le hy'.2
   · simp only [epv_deriv]
-    exact grad_sq h.hD1 h.hα1 h.h1 hv
+    first
+      | exact grad_sq h.hD1 h.hα1 h.h1 hv
+      | (have := grad_sq (x := x) (y := y) h.hD1 h.hα1 h.h1 hv; linear_combination this)
 
 /-- in the outer explosive the gradient exists and has magnitude `1/(D_CJ₂ - α₂/r)` -/
 theorem dsdcyl_gradient_outer (p : DSDCyl.P) (h : DSDCyl.Adm p) (x y : ℝ)
@@ -156,7 +159,40 @@ theorem dsdcyl_gradient_outer (p : DSDCyl.P) (h : DSDCyl.Adm p) (x y : ℝ)
     filter_upwards [(cont_radius_y x y).eventually (Ioi_mem_nhds h2)] with y' hy'
     exact dsdcyl_eq_L9 p h x y' (le_of_lt hy')
   · simp only [epv_deriv]
-    exact grad_sq h.hD2 h.hα2 h.h2 hv
+    first
+      | exact grad_sq h.hD2 h.hα2 h.h2 hv
+      | (have := grad_sq (x := x) (y := y) h.hD2 h.hα2 h.h2 hv; linear_combination this)
+
+/-! #### the property's consequence for a curvature-dependent speed
+
+"two points joined by a straight path inside one explosive differ in burn time by at most their
+distance divided by that explosive's speed": here the normal speed `D_CJ - α/r` grows with r, so
+the bound is stated with the speed at the smallest radius ρ of the region considered. -/
+
+private theorem speed_pos {D α ρ : ℝ} (hD : 0 < D) (hv : α / D < ρ) (hρ0 : 0 < ρ) : 0 < D - α / ρ := by
+  have : α / ρ < D := by
+    rw [div_lt_iff₀ hρ0]; have := (div_lt_iff₀ hD).mp hv; linarith
+  linarith
+
+theorem dsdcyl_lipschitz_inner (p : DSDCyl.P) (h : DSDCyl.Adm p) (q q' : E2) (ρ : ℝ) (hρ : p.r_1 ≤ ρ)
+    (hq : ρ ≤ ‖q‖) (hq' : ρ ≤ ‖q'‖) (hq2 : ‖q‖ ≤ p.r_2) (hq2' : ‖q'‖ ≤ p.r_2) :
+    |DSDCyl.burntime p (q 0) (q 1) - DSDCyl.burntime p (q' 0) (q' 1)| ≤ dist q q' / (p.D_CJ_1 - p.alpha_1 / ρ) := by
+  rw [dsdcyl_eq_spec_norm p h, dsdcyl_eq_spec_norm p h]
+  have hvρ : p.alpha_1 / p.D_CJ_1 < ρ := h.h1.trans_le hρ
+  have hρ0 : 0 < ρ := lt_of_le_of_lt (div_nonneg h.hα1 h.hD1.le) hvρ
+  refine (dsd_lipschitz_inner (td := p.t_d) h hρ hq hq' hq2 hq2').trans ?_
+  exact div_le_div_of_nonneg_right (by rw [dist_eq_norm]; exact abs_norm_sub_norm_le q q')
+    (speed_pos h.hD1 hvρ hρ0).le
+
+theorem dsdcyl_lipschitz_outer (p : DSDCyl.P) (h : DSDCyl.Adm p) (q q' : E2) (ρ : ℝ) (hρ : p.r_2 ≤ ρ)
+    (hq : ρ ≤ ‖q‖) (hq' : ρ ≤ ‖q'‖) :
+    |DSDCyl.burntime p (q 0) (q 1) - DSDCyl.burntime p (q' 0) (q' 1)| ≤ dist q q' / (p.D_CJ_2 - p.alpha_2 / ρ) := by
+  rw [dsdcyl_eq_spec_norm p h, dsdcyl_eq_spec_norm p h]
+  have hvρ : p.alpha_2 / p.D_CJ_2 < ρ := h.h2.trans_le hρ
+  have hρ0 : 0 < ρ := lt_of_le_of_lt (div_nonneg h.hα2 h.hD2.le) hvρ
+  refine (dsd_lipschitz_outer (td := p.t_d) h hρ hq hq').trans ?_
+  exact div_le_div_of_nonneg_right (by rw [dist_eq_norm]; exact abs_norm_sub_norm_le q q')
+    (speed_pos h.hD2 hvρ hρ0).le
 
 /-- non-vacuity: the solver's defaults r₁ = 1, r₂ = 2, D_CJ = 0.5, 1, α = 0.1, 0.1 are admissible -/
 example : DSDCyl.Adm ⟨1/2, 1, 1/10, 1/10, 1, 2, 0⟩ := by
